@@ -541,6 +541,10 @@ def _judge(w, plan, sp, h, sent_wire, violations, probes, deferred) -> None:
                         if len(raw) >= 240:
                             probes['long_nlri'] += 1
                         got[(afi, FL.canon(r, widths=True))] = (ecs, raw)
+    seen_keys: dict = {}
+    for tr in plan['text_rules']:
+        k0 = (tr['rule']['afi'], FL.canon(as_ref_rule(tr['rule']), widths=True))
+        seen_keys[k0] = seen_keys.get(k0, 0) + 1
     for tr in plan['text_rules']:
         ref = as_ref_rule(tr['rule'])
         try:
@@ -548,6 +552,8 @@ def _judge(w, plan, sp, h, sent_wire, violations, probes, deferred) -> None:
         except ValueError:
             continue  # longer than 4095 bytes: not expressible
         key = (tr['rule']['afi'], FL.canon(ref, widths=True))
+        if seen_keys.get(key, 0) > 1:
+            continue  # the same rule entered twice with different actions: the later one replaces the earlier
         probes['text_judged'] += 1
         for t, _ in tr['rule']['comps']:
             probes[f'component:{t}'] = probes.get(f'component:{t}', 0) + 1
